@@ -112,8 +112,10 @@ class ECDH1PUAlgModel(JWEKeyAgreement):
 
         sender_key = recipient.sender_key
         recipient_key = recipient.recipient_key
-        assert sender_key is not None
         assert recipient_key is not None
+        self.check_key_type(recipient_key)
+        if sender_key is None:
+            raise ValueError(f'Algorithm "{self.name}" requires a sender key')
 
         ephemeral_key = recipient_key.import_key(headers["epk"])
         sender_shared_key = recipient_key.exchange_derive_key(sender_key)
